@@ -23,6 +23,12 @@ SMALL_CFGS = [
     {"limit_request_line": 0, "limit_request_fields": 3, "limit_request_field_size": 0},
     {"limit_request_line": 64, "limit_request_fields": 100, "limit_request_field_size": 30},
     {"limit_request_fields": 4, "limit_request_field_size": 64, "header_map": "refuse"},
+    # the parser's switches: the result may differ from the default configuration's, but never with the segmentation
+    {"limit_request_fields": 3, "limit_request_field_size": 60, "permit_obsolete_folding": True},
+    {"limit_request_fields": 6, "permit_obsolete_folding": True, "strip_header_spaces": True},
+    {"limit_request_fields": 5, "limit_request_field_size": 40, "permit_unconventional_http_method": True,
+     "permit_unconventional_http_version": True, "casefold_http_method": True},
+    {"limit_request_fields": 4, "header_map": "dangerous", "strip_header_spaces": True},
 ]
 
 
@@ -49,6 +55,16 @@ def limit_shaped(rng, cfgset):
         name = b"X-%d" % len(hdrs)
         hdrs.append(name + b": " + b"v" * max(0, flen - len(name) - 2))
     rng.shuffle(hdrs)
+    if cfgset.get("permit_obsolete_folding") or rng.random() < 0.05:
+        # obsolete line folding: one field on several lines (more lines than fields are allowed)
+        folded = []
+        for h in hdrs:
+            if b": v" in h and rng.random() < 0.7:
+                name, val = h.split(b": ", 1)
+                parts = [val[i:i + max(1, len(val) // rng.randint(2, 4))] for i in range(0, len(val), max(1, len(val) // rng.randint(2, 4)))]
+                h = name + b": " + rng.choice([b"\r\n ", b"\r\n\t", b"\r\n  "]).join(parts[:5])
+            folded.append(h)
+        hdrs = folded
     s = b"POST " + target + b" HTTP/1.1\r\n" + b"".join(h + b"\r\n" for h in hdrs) + b"\r\n"
     if framing == "cl":
         s += body
@@ -110,9 +126,19 @@ def cut_vectors(rng, stream, tier):
             yield [a, b]
 
 
-def check_stream(run, e1, stream, cfgset, tier, rng, origin, vectors=None):
+def reader_of(k):
+    """The application's use of the body: everything (None) or only the first k bytes (the parser discards the rest)."""
+    if k is None:
+        return None
+    return lambda b: b.read(k) if k else b""
+
+
+def check_stream(run, e1, stream, cfgset, tier, rng, origin, vectors=None, readk=None):
     cfg = e1.make_cfg(**cfgset)
-    base = e1.observe(cfg, gen.cut(stream, []))
+    kw = {} if readk is None else {"consumer": reader_of(readk)}
+    if readk is not None:
+        run.count("streams_with_body_left_unread")
+    base = e1.observe(cfg, gen.cut(stream, []), **kw)
     bsig = e1.obs_signature(base)
     sh = common.sha12(stream)
     nbad = 0
@@ -128,8 +154,8 @@ def check_stream(run, e1, stream, cfgset, tier, rng, origin, vectors=None):
         run.count("streams_pipelined")
     for cuts in (vectors if vectors is not None else cut_vectors(rng, stream, tier)):
         pieces = gen.cut(stream, cuts)
-        obs = e1.observe(cfg, pieces)
-        run.case((sh, tuple(cuts)) if len(cuts) < 12 else (sh, common.sha12(list(cuts))))
+        obs = e1.observe(cfg, pieces, **kw)
+        run.case((sh, tuple(cuts), readk) if len(cuts) < 12 else (sh, common.sha12(list(cuts)), readk))
         run.count("segmentations")
         if e1.obs_signature(obs) != bsig:
             nbad += 1
@@ -137,7 +163,7 @@ def check_stream(run, e1, stream, cfgset, tier, rng, origin, vectors=None):
                 mech = classify(base, obs)
                 run.violation(mech, "segmentation changes the result: whole=%s cut%s=%s | cfg=%s stream=%s" % (
                     brief(base), cuts[:8], brief(obs), cfgset, hexs(stream[:200])),
-                    {"stream": stream.hex(), "cfg": cfgset, "cuts": list(cuts), "origin": origin})
+                    {"stream": stream.hex(), "cfg": cfgset, "cuts": list(cuts), "origin": origin, "readk": readk})
     return nbad
 
 
@@ -179,7 +205,7 @@ def shard(sh):
             if rng.random() < 0.25:
                 s = s[:rng.randrange(1, len(s))]      # client went away mid-stream
             cfgset = rng.choice(SMALL_CFGS) if rng.random() < 0.25 else {}
-            check_stream(run, e1, s, cfgset, tier, rng, "gram")
+            check_stream(run, e1, s, cfgset, tier, rng, "gram", readk=rng.choice([None, None, None, 0, 1, 7, 1024, 1500]))
             if k == 0:
                 run.sample({"class": "grammar", "stream": hexs(s[:300]), "cfg": cfgset,
                             "cut_vectors": "all bytes; every single cut; 50 multi-cuts"})
@@ -195,7 +221,7 @@ def shard(sh):
                 break
             cfgset = rng.choice(SMALL_CFGS + [{}])
             s = limit_shaped(rng, cfgset)
-            check_stream(run, e1, s, cfgset, tier, rng, "limit")
+            check_stream(run, e1, s, cfgset, tier, rng, "limit", readk=rng.choice([None, None, None, 0, 3, 100]))
             run.count("limit_shaped_streams")
             if k == 0:
                 run.sample({"class": "limit-shaped", "stream": hexs(s[:300]), "cfg": cfgset})
@@ -217,7 +243,7 @@ def shard(sh):
             vec = [sorted(rng.sample(range(1, n), rng.randint(1, 6))) for _ in range(25)]
             sp = special_positions(s)
             vec += [[c] for c in rng.sample(sp, min(len(sp), 60))]
-            check_stream(run, e1, s, {}, tier, rng, "big", vectors=vec)
+            check_stream(run, e1, s, {}, tier, rng, "big", vectors=vec, readk=rng.choice([None, None, 0, 1500, 8192]))
             run.count("big_streams")
     return run
 
@@ -226,7 +252,7 @@ def main(tier, seed):
     run = Run(PROP, tier, seed, "exploration", RULE)
     run.require("segmentations", "streams_with_accepted_request", "streams_rejected",
                 "streams_premature_end", "streams_with_trailers", "streams_pipelined",
-                "limit_shaped_streams", "big_streams")
+                "limit_shaped_streams", "big_streams", "streams_with_body_left_unread")
     q = tier == "quick"
     shards = []
     for sub in range(24 if q else 96):
@@ -253,7 +279,7 @@ def replay(path):
     c = rec["case"]
     stream = bytes.fromhex(c["stream"])
     run = Run(PROP, "quick", 0, "exploration", RULE)
-    n = check_stream(run, e1, stream, c["cfg"], "quick", rng_for(0, "replay"), "replay", vectors=[c["cuts"]])
+    n = check_stream(run, e1, stream, c["cfg"], "quick", rng_for(0, "replay"), "replay", vectors=[c["cuts"]], readk=c.get("readk"))
     for mech, s, _ in run.violations:
         print("VIOLATION property=%s replay=%s\n  %s %s" % (PROP, path, mech, s))
     if not n:
